@@ -100,6 +100,16 @@ REGISTRY = {
         ],
         "require": {"c09:fault:close": 1023, "c09:fault:cut-mid-frame": 428, "c09:fault:linktest-dead": 419, "c09:fault:peer-close": 819, "c09:fault:peer-reset": 798, "c09:fault:reply-then-close": 568, "c09:fault:separate": 412, "c09:fault:stall-queue-reset": 559, "c09:fault:t8-stall": 415, "c09:fault:write-timeout": 489, "c09:gens:1": 1024, "c09:gens:2": 1017, "c09:gens:3": 958, "c09:pending-at-fault": 3988, "c09:role:active": 1484, "c09:role:passive": 1515, "c09:stale-replies-played": 999},
     },
+    "C10": {
+        "level": "exploration",
+        "claim": "Concurrent API programs (Open blocking/background, Close, sends, UpdateConfigOptions valid/invalid, State, Metrics) from 1-5 goroutines at drawn offsets over 1-3 open/close cycles against peers that are absent, select, stay silent, drop or flap, both roles, in real time with small timers; every call is bounded, Close is bounded and idempotent, after Close no goroutine runs library code, every socket/listener handed to the library is closed, no dial/listen follows, State() is NotConnected; a re-Open reaches Selected, a second Open is refused with ErrAlreadyOpen without side effects, and a round trip works.",
+        "trust": "Real time: bounds are upper bounds with seconds of slack and leak detectors poll for 2 s; HSMS-SS only (SECS-I lifecycle is covered by C17/C18 set-up and tear-down, not enumerated here); handlers return (as the statement assumes).",
+        "technique": "property-based testing (rapid): generated concurrent API programs x peer behaviours with leak detectors (goroutine dump, socket registry, dial log)",
+        "tests": [
+            {"name": "TestC10Lifecycle", "shards": 8, "shards_thorough": 16, "crash_is_violation": True},
+        ],
+        "require": {"c10:cycles:1": 13, "c10:cycles:2": 13, "c10:cycles:3": 13, "c10:peer:absent": 17, "c10:peer:drop": 11, "c10:peer:flap": 9, "c10:peer:select": 32, "c10:peer:silent": 11, "c10:reopened": 57, "c10:role:active": 19, "c10:role:passive": 20},
+    },
     "C13": {
         "level": "exploration",
         "claim": 'Generated messages over the stated item grammar x all encoder options round-tripped through the strict encoder and strict parser; parser-accepted texts produced by a grammar-directed text generator re-encoded and re-parsed.',
